@@ -452,6 +452,63 @@ def sqrt_scalar_stream(rep, rng, count):
                               {"oracle": "O_sqrt_scalar", "circuit": repr(circuit), "point": repr(vals)})
 
 
+def sum_gradient_stream(rep, rng, count):
+    """Oracle-only stream on the real objects: pure gradients (mixed=False) of FORMAL SUMS of circuits
+    and second-order pure gradients (the gradient of a gradient is the gradient of a sum).  Evaluating
+    them gives the first / second partial derivative of the amplitudes (sympy on eval())."""
+    import numpy
+    from discopy.quantum import gates as G
+    x, y = sympy.symbols("x y", real=True)
+    bad = 0
+
+    def flat(r):
+        if isinstance(r, (int, float)):
+            return None
+        return numpy.array(r.array).flatten()
+
+    def num(entries, vals):
+        return numpy.array([complex(sympy.sympify(e).subs(vals)) for e in entries])
+    for k in range(count):
+        vals = {x: rng.uniform(0.1, 1.2), y: rng.uniform(0.1, 1.2)}
+
+        def body():
+            return (G.Ket(0) >> G.Rx(rng.choice([x, x * y, x + y, 2 * x])) >> G.Rz(rng.choice([y, x * y, y ** 2]))
+                    >> G.Rx(rng.choice([x, y, 0.25])) >> G.Bra(rng.randint(0, 1)))
+        c1, c2 = body(), body()
+        what = None
+        try:
+            if k % 2 == 0:          # gradient of a formal sum
+                total = c1 + c2
+                for var in (x, y):
+                    want = num([sympy.diff(sympy.sympify(a) + sympy.sympify(b), var)
+                                for a, b in zip(flat(c1.eval()), flat(c2.eval()))], vals)
+                    g = flat(total.grad(var, mixed=False).eval())
+                    got = numpy.zeros(want.shape, dtype=complex) if g is None else num(g, vals)
+                    if got.shape != want.shape or not numpy.allclose(got, want, atol=1e-7):
+                        what = "d/d%s of a sum of two circuits (mixed=False): got %r, sympy gives %r" % (
+                            var, list(got), list(want))
+                        break
+            else:                   # second-order pure gradient
+                v1, v2 = rng.choice([(x, x), (x, y), (y, x), (y, y)])
+                want = num([sympy.diff(sympy.sympify(a), v1, v2) for a in flat(c1.eval())], vals)
+                g = flat(c1.grad(v1, mixed=False).grad(v2, mixed=False).eval())
+                got = numpy.zeros(want.shape, dtype=complex) if g is None else num(g, vals)
+                if got.shape != want.shape or not numpy.allclose(got, want, atol=1e-7):
+                    what = "d2/d%s d%s of a circuit (mixed=False twice): got %r, sympy gives %r" % (
+                        v1, v2, list(got), list(want))
+        except Exception as exc:   # noqa
+            what = "pure gradient of a sum raised %s: %s" % (type(exc).__name__, exc)
+        rep.count("stream:sum-gradients")
+        if what:
+            bad += 1
+            rep.count("oracle:O_sum_grad:FAIL")
+            if bad <= 3:
+                rep.violation("O_sum_grad: " + what, {"oracle": "O_sum_grad", "c1": repr(c1), "c2": repr(c2),
+                                                      "point": repr(vals)})
+        else:
+            rep.count("oracle:O_sum_grad:pass")
+
+
 def run(tier, seed):
     try:
         common.model_entry("grad")
@@ -687,6 +744,7 @@ def run(tier, seed):
                                       wrap(ck.programs), rng, n=150)
 
     sqrt_scalar_stream(rep, rng, 40 if quick else 400)
+    sum_gradient_stream(rep, rng, 30 if quick else 300)
     base.settle(rep, "C15", proof_ok, "C15")
     return rep.finish(
         rule="random parametrised circuits on <= 2 qubits (Rx Ry Rz, CU1 CRz CRx, pure / mixed scalars, "
